@@ -255,8 +255,17 @@ void XMLDateTime::addDuration(XMLDateTime*             fNewDate
     //add years (may be modified additionaly below)
     fNewDate->fValue[CentYear] = DATETIMES[index][CentYear] + fDuration->fValue[CentYear] + carry;
 
+    //add the fraction of the seconds (it is negative in a negative duration)
+    fNewDate->fHasTime = true;
+    fNewDate->fMilliSecond = fDuration->fMilliSecond;
+    carry = 0;
+    if (fNewDate->fMilliSecond < 0) {
+        fNewDate->fMilliSecond += 1;
+        carry--;
+    }
+
     //add seconds
-    temp = DATETIMES[index][Second] + fDuration->fValue[Second];
+    temp = DATETIMES[index][Second] + fDuration->fValue[Second] + carry;
     carry = fQuotient (temp, 60);
     fNewDate->fValue[Second] =  mod(temp, 60, carry);
     if (fNewDate->fValue[Second] < 0) {
